@@ -721,6 +721,8 @@ class Sequence:
         blob-sized regions along the sequence
         """
 
+        self.__check_window_to_length(bloblen)
+
         # detemrine the number of blobs of length blpblen in the sequence
         nblobs = self.len - bloblen + 1
 
